@@ -1,4 +1,5 @@
 import GoLevel.Proofs.CacheStale
+import GoLevel.Proofs.CacheLocksClose
 import GoLevel.Proofs.CacheProgress
 import GoLevel.Proofs.CacheTableCount
 import GoLevel.Proofs.CacheTableDriver   -- the driver's `cache …` protocol runs exactly these two models
@@ -202,6 +203,152 @@ whatever quiescent states a schedule reaches. -/
 theorem no_deadlock {g : Bool} {s : Sys} (hr : Reachable g s) (hnq : ¬ Quiescent s) :
     ∃ t s', sysStep g s (.step t) = some s' :=
   progress hr hnq
+
+/-! ## The locks: `mu` and `unrefMu` with Go's writer preference (`Model/CacheLocks.lean`)
+
+`no_deadlock` above is about the base system, in which readers never wait.  The lock-level system `CacheL.LSys`
+adds the two `sync.RWMutex`es as Go implements them (an announced writer blocks NEW readers; readers inside
+proceed), and who takes what: see the header of `Model/CacheLocks.lean`. -/
+
+open GoLevel.CacheL in
+/-- **lock_system_refines** — the lock-level system only restricts the base system: every state it reaches is a
+reachable state of the (unguarded) base system, so every safety theorem of this file holds for it. -/
+theorem lock_system_refines {ls : LSys} (hr : LReachable ls) : Reachable false ls.base :=
+  lreachable_base hr
+
+open GoLevel.CacheL in
+/-- **code_unref_own_lock** — the lock configuration of the model is the code's: `tools/extract` finds that
+`Node.unRefExternal` read-locks `n.r.unrefMu` (and never `n.r.mu`) around its closed-check, and that `Cache.Close`
+runs `if !r.closed {…}` between `r.mu.Lock(); r.unrefMu.Lock()` and `r.unrefMu.Unlock(); r.mu.Unlock()`. -/
+theorem code_unref_own_lock : unrefUsesMuCode = false := by decide
+
+open GoLevel.CacheL in
+/-- **no_deadlock_locks** — WITH the locks, for the code as it is (`unRefExternal` uses `unrefMu`): in every
+reachable state of the lock-level system in which some call has not returned (`¬ LQuiescent`), some thread can
+take a step.  (The only waits are: a new reader for an announced writer; a writer for the readers inside.  A reader
+of `mu` never needs `mu` again, and what it may need — `unrefMu`, for the releases the LRU performs from inside
+`Promote` / `Ban` / `Evict` — is only ever write-locked by a `Close` that already holds `mu`, i.e. when there is no
+reader of `mu`; a reader of `unrefMu` takes no lock at all.) -/
+theorem no_deadlock_locks {ls : LSys} (hr : LReachable ls) (hc : ls.unrefUsesMu = false) (hnq : ¬ LQuiescent ls) :
+    ∃ t ls', lstepThread ls t = some ls' :=
+  lock_progress hr hc hnq
+
+open GoLevel.CacheL in
+/-- … in particular for every state run from `LSys.init`, the configuration read off the source. -/
+theorem no_deadlock_locks_code {c n : Nat} {sched : List Act} {ls : LSys}
+    (h : lrun (LSys.init c n) sched = some ls) (hnq : ¬ LQuiescent ls) : ∃ t ls', lstepThread ls t = some ls' := by
+  have hr := lreachable_lrun (LReachable.init Cfg.code unrefUsesMuCode c n) h
+  obtain ⟨cfg, uum, c', n', _, h2⟩ := uum_reachable hr
+  refine lock_progress hr ?_ hnq
+  -- the flag never changes
+  have : ∀ {sched : List Act} {a b : LSys}, lrun a sched = some b → b.unrefUsesMu = a.unrefUsesMu := by
+    intro sched
+    induction sched with
+    | nil => intro a b h; simp only [lrun, Option.some.injEq] at h; rw [h]
+    | cons x xs ih =>
+      intro a b h
+      simp only [lrun] at h
+      cases hs : lstep a x with
+      | none => rw [hs] at h; cases h
+      | some a1 => rw [hs] at h; rw [ih h, uum_step hs]
+  rw [this h]; exact code_unref_own_lock
+
+open GoLevel.CacheL in
+/-- **close_returns** — `Close` gets through its locking, measure-style (for the code as it is).  Let thread `w` be
+inside `Close`'s locking (`phase ≠ idle`: `r.mu.Lock()` announced … `r.mu.Unlock()` not yet done).  Then
+
+(1) somebody HELPFUL is enabled: `w` itself, or — while `w` waits for the readers of `mu` (resp. `unrefMu`) — a
+thread `t ≠ w` that holds that lock for reading, and its step strictly decreases `Phi mu` (resp. `Phi un`), the
+total weight of the instructions the readers still have to execute;
+(2) `w`'s own step takes it one phase further (`Phase.rank` decreases: six lock steps and the body);
+(3) NO step of any other thread undoes this: it leaves `w`'s phase alone and does not increase `Phi mu` (nor
+`Phi un` while `w` waits on `unrefMu`): new readers are blocked by the announced writer, and nothing lengthens a
+reader's remaining work (`CacheLocksMeasure`: every instruction weighs more than what it pushes);
+(4) when `Phi l` is zero the lock `l` has no readers, i.e. `w`'s acquisition is enabled.
+
+So under weak fairness (a thread that stays enabled is eventually scheduled: a reader is never blocked, (1)) `Phi`
+reaches zero after at most `Phi` reader steps, `w` acquires, and after at most 6 more steps of its own `w` has
+released both locks: `Close`'s critical section always completes.  What follows it in `Close` — `lru.Evict` and,
+forced, `callFinalizer` for each node — are non-blocking single steps except `unRefExternal`'s
+`unrefMu.RLock()`, which waits only for another `Close` inside its own locking, to which this theorem applies. -/
+theorem close_returns {ls : LSys} {w : Nat} {th : LThread} (hr : LReachable ls) (hc : ls.unrefUsesMu = false)
+    (hth : ls.tl[w]? = some th) (hp : th.phase ≠ .idle) :
+    ((∃ ls', lstepThread ls w = some ls') ∨
+      (th.phase = .annMu ∧ ∃ t ls', t ≠ w ∧ lstepThread ls t = some ls' ∧ Phi .mu ls' < Phi .mu ls) ∨
+      (th.phase = .annUn ∧ ∃ t ls', t ≠ w ∧ lstepThread ls t = some ls' ∧ Phi .un ls' < Phi .un ls)) ∧
+    (∀ ls', lstepThread ls w = some ls' → ∃ th', ls'.tl[w]? = some th' ∧ th'.phase.rank < th.phase.rank) ∧
+    (∀ a ls', lstep ls a = some ls' → a ≠ .step w →
+      ls'.tl[w]? = some th ∧ Phi .mu ls' ≤ Phi .mu ls ∧ (unPhase th.phase = true → Phi .un ls' ≤ Phi .un ls)) ∧
+    (Phi .mu ls = 0 → ls.mu.readers = 0) ∧ (Phi .un ls = 0 → ls.un.readers = 0) :=
+  ⟨close_helpful hr hc hth hp, fun ls' hs => own_step_rank hth hp hs,
+   fun a ls' hs ha => close_stable hr hc hth hp hs ha,
+   fun h0 => phi_zero (l := .mu) hr hc h0, fun h0 => phi_zero (l := .un) hr hc h0⟩
+
+namespace D36
+open GoLevel.CacheL
+
+/-- Thread 0: `Get` key (0,1) in a cache of capacity 1 and release the handle (the node stays on the LRU list);
+then `Get` key (0,2): `r.mu.RLock()`, the table access, `setFunc`, `lru.Promote` — which evicts node 0 and
+releases the LRU's handle: `unRefExternal` brings the counter to zero.  Thread 1: `Close`: `r.mu.Lock()`
+announces itself and waits for thread 0 to leave.  Thread 0's `unRefExternal` now wants a read lock. -/
+def sched : List Act :=
+  [ .call 0 (.get (0, 1) (.val 1)) ] ++ List.replicate 6 (.step 0) ++
+  [ .call 0 (.release 0), .step 0, .step 0 ] ++
+  [ .call 0 (.get (0, 2) (.val 1)) ] ++ List.replicate 5 (.step 0) ++
+  [ .call 1 (.close false), .step 1 ]
+
+/-- Before the repair `unRefExternal` read-locked `r.mu`. -/
+def before : LSys := LSys.initCfg Cfg.code true 1 2
+
+theorem eval :
+    (lrun before sched).map (fun ls => ls.unrefUsesMu && ls.tl.length == 2 && !(pending ls.base).isEmpty &&
+      (lstepThread ls 0).isNone && (lstepThread ls 1).isNone) = some true := by decide
+
+end D36
+
+open GoLevel.CacheL in
+/-- **d36_deadlock** — RECORD OF A REPAIRED DEFECT (D36).  With `unRefExternal` read-locking `r.mu`
+(`unrefUsesMu = true`, the code before the repair) the lock-level system reaches a state that is not quiescent
+and in which NO thread can take a step: thread 0 is inside `Get` (holds `r.mu` for reading) and its
+`lru.Promote` released the last handle of the evicted node, so `unRefExternal` asks for `r.mu.RLock()` again;
+thread 1's `Close` has announced `r.mu.Lock()`, which blocks that new read lock and itself waits for thread 0 to
+leave.  (`DB.Get` racing `DB.Close` with a full table cache; reproduced on the implementation at cache level and at
+DB level before the repair.) -/
+theorem d36_deadlock :
+    ∃ ls, LReachable ls ∧ ls.unrefUsesMu = true ∧ ¬ LQuiescent ls ∧ Stuck ls := by
+  have h := D36.eval
+  cases hs : lrun D36.before D36.sched with
+  | none => rw [hs] at h; cases h
+  | some ls =>
+    rw [hs] at h
+    simp only [Option.map_some, Option.some.injEq, Bool.and_eq_true, Bool.not_eq_true', beq_iff_eq,
+      Option.isNone_iff_eq_none] at h
+    obtain ⟨⟨⟨⟨h1, h2⟩, h3⟩, h4⟩, h5⟩ := h
+    refine ⟨ls, lreachable_lrun (LReachable.init _ _ _ _) hs, h1, ?_, ?_⟩
+    · intro hq
+      rw [hq.1] at h3; simp at h3
+    · intro t
+      match t with
+      | 0 => exact h4
+      | 1 => exact h5
+      | t + 2 =>
+        unfold lstepThread
+        have : ls.tl[t + 2]? = none := List.getElem?_eq_none (by omega)
+        rw [this]
+
+/-- The same interleaving with the lock the code uses now (`unrefMu`): thread 0's `unRefExternal` is not blocked —
+it proceeds, leaves `Get`, and `Close` gets `r.mu`. -/
+example :
+    (GoLevel.CacheL.lrun (GoLevel.CacheL.LSys.init 1 2) D36.sched).map
+      (fun ls => ((GoLevel.CacheL.lstepThread ls 0).isSome, (GoLevel.CacheL.lstepThread ls 1).isSome)) =
+    some (true, false) := by decide
+
+/-- … and run on (thread 0 finishes its `Get`, then `Close` completes): everything returns. -/
+example :
+    (GoLevel.CacheL.lrun (GoLevel.CacheL.LSys.init 1 2)
+      (D36.sched ++ List.replicate 5 (.step 0) ++ List.replicate 8 (.step 1))).map
+      (fun ls => ((pending ls.base).isEmpty, ls.tl.map (·.phase), ls.mu.writer, ls.un.writer, ls.base.sh.closed)) =
+    some (true, [.idle, .idle], none, none, true) := by decide
 
 /-- After a forced `Close`, once quiescent, every constructed value has been finalised (exactly once). -/
 theorem forced_close_finalises_all {g : Bool} {s : Sys} (hr : Reachable g s) (hq : Quiescent s)
@@ -691,6 +838,8 @@ def theorems : List String :=
    "GoLevel.C17.delfunc_at_most_once", "GoLevel.C17.delfunc_at_most_once_code",
    "GoLevel.C17.code_closed_unref_rechecks", "GoLevel.C17.no_finalise_under_handle",
    "GoLevel.C17.no_finalise_under_handle_code", "GoLevel.C17.no_deadlock",
+   "GoLevel.C17.lock_system_refines", "GoLevel.C17.code_unref_own_lock", "GoLevel.C17.no_deadlock_locks",
+   "GoLevel.C17.no_deadlock_locks_code", "GoLevel.C17.close_returns", "GoLevel.C17.d36_deadlock",
    "GoLevel.C17.callFinalizer_race", "GoLevel.C17.callFinalizer_repaired",
    "GoLevel.C17.table_refines_map", "GoLevel.C17.table_buckets"]
 
